@@ -160,6 +160,13 @@ Definition strands (find_gaps : bool) (rs : list mres) : list (str * str) := str
 
 (* extended rows: per LW class (in enum order) first-fit rows in which each nucleotide has at most one partner;
    a pair listed twice is written once *)
+(* __generate_dot_bracket_per_strand: the dot-bracket of the whole BPSEQ cut into consecutive pieces as long as the strands *)
+Fixpoint split_lengths {A} (l : list A) (lens : list nat) : list (list A) :=
+  match lens with [] => [] | n :: t => firstn n l :: split_lengths (skipn n l) t end.
+Definition strand_texts (find_gaps : bool) (rs : list mres) (db : str) : list (str * str * str) :=
+  let ss := strands find_gaps rs in
+  map (fun x => (fst (fst x), snd (fst x), snd x)) (combine ss (split_lengths db (map (fun s => length (snd s)) ss))).
+
 Definition fits_row (p : lpair) (row : list lpair) : bool :=
   negb (existsb (fun q => (l_i q =? l_i p) || (l_j q =? l_i p) || (l_i q =? l_j p) || (l_j q =? l_j p)) row).
 Fixpoint place (p : lpair) (rws : list (list lpair)) : list (list lpair) :=
